@@ -35,6 +35,14 @@ SPECS = {
                 thorough=dict(cap=None, extra=[], repeat=12),
                 assume=["the input space is unbounded: the specification contributes the structured malformed-input case space and the outcome/allocation oracle, not exhaustiveness",
                         "each case runs in a child process under a counting allocator; an abnormal exit of the child is the `abort` outcome"]),
+    "C03": dict(module="ClientPubSub", cfg="MC_ClientPubSub.cfg", sub="pubsub", bin="e2e",
+                trace=("Trace_ClientPubSub", "Trace_ClientPubSub.cfg"), level="model_checking",
+                quick=dict(cap=150, extra=[]),
+                thorough=dict(cap=None, extra=[], repeat=3),
+                assume=["loopback QUIC with certificates generated in the run; reliable ordered delivery per QUIC stream",
+                        "batch interval is either far shorter (1 ms, with 4 ms between operations) or far longer (1 h) than the run",
+                        "a sentinel publisher establishes that the subscription took effect before the first send",
+                        "codec / compression / payload size rotate over the enumerated cases (seeded); 'lost' = not delivered within 4 s on loopback"]),
     "C14": dict(module="Pipeline", cfg="MC_Pipeline.cfg", sub="pipeline", trace=("Trace_Pipeline", "Trace_Pipeline.cfg"),
                 level="exploration",
                 quick=dict(cap=700, extra=[]),
@@ -50,7 +58,7 @@ def run_cases(pid, S, T, work, cases, rep_seed, tag):
         for c in cases:
             f.write(json.dumps(c) + "\n")
     trace = work.path("trace-%s.ndjson" % tag)
-    cmd = [os.path.join(BIN, "pure"), S["sub"], "--cases", cf, "--out", trace, "--seed", str(rep_seed)] + T["extra"]
+    cmd = [os.path.join(BIN, S.get("bin", "pure")), S["sub"], "--cases", cf, "--out", trace, "--seed", str(rep_seed)] + T["extra"]
     p = sh(cmd, timeout=7200)
     summ = json.loads(p.stdout.strip().splitlines()[-1])
     mod, cfg = S["trace"]
